@@ -35,6 +35,21 @@ import plan as PLAN  # noqa: E402
 
 MASK = (1 << 64) - 1
 
+# Development aid only (seeded-change evaluation in parallel): VERIF_REPO=<scratch worktree> builds the
+# harness against that tree instead of /repo through a temporary -modfile. Registered checks never set it.
+REPO = os.environ.get("VERIF_REPO") or "/repo"
+MODFLAGS = []
+
+
+def prepare_modfile(tmp):
+    if REPO == "/repo":
+        return
+    mod = open(os.path.join(HARNESS, "go.mod")).read().replace("=> /repo", "=> " + REPO)
+    with open(os.path.join(tmp, "go.mod"), "w") as f:
+        f.write(mod)
+    shutil.copy(os.path.join(HARNESS, "go.sum"), os.path.join(tmp, "go.sum"))
+    MODFLAGS[:] = ["-modfile=" + os.path.join(tmp, "go.mod")]
+
 
 def splitmix(x):
     x = (x + 0x9E3779B97F4A7C15) & MASK
@@ -57,7 +72,7 @@ def goenv():
 def sync_gosum():
     """harness/go.sum must contain /repo's sums (replace => /repo)."""
     try:
-        want = open("/repo/go.sum").read().splitlines()
+        want = open(REPO + "/go.sum").read().splitlines()
         path = os.path.join(HARNESS, "go.sum")
         have = open(path).read().splitlines() if os.path.exists(path) else []
         missing = [l for l in want if l not in set(have)]
@@ -70,7 +85,7 @@ def sync_gosum():
 
 def build(pkg, race, tmp, extra_build=None):
     out = os.path.join(tmp, pkg + (".race" if race else "") + ".test")
-    cmd = ["go", "test", "-c", "-vet=off", "-o", out]
+    cmd = ["go", "test", "-c", "-vet=off", "-o", out] + MODFLAGS
     if race:
         cmd.append("-race")
     if extra_build:
@@ -234,7 +249,7 @@ def run_fuzz(unit, tmp, tier, pid, secs):
     env = goenv()
     env.update({"VERIF_TIER": tier, "VERIF_DIR": VERIF})
     before = set(glob.glob(os.path.join(pkgdir, "testdata", "fuzz", unit["run"], "*")))
-    cmd = ["go", "test", "-vet=off", "-run", "^$", "-fuzz", "^" + unit["run"] + "$",
+    cmd = ["go", "test", "-vet=off"] + MODFLAGS + ["-run", "^$", "-fuzz", "^" + unit["run"] + "$",
            "-fuzztime", "%ds" % secs, "-test.fuzzcachedir", cache, "-parallel", str(unit.get("par", 8)), "."]
     t0 = time.time()
     try:
@@ -374,13 +389,16 @@ def do_replay(pid, path, tmp):
         tgt = os.path.join(d, "replay-" + base)
         shutil.copy(path, tgt)
         try:
-            p = subprocess.run(["go", "test", "-vet=off", "-run", "^%s$/%s" % (test, "replay-" + base), "."],
+            p = subprocess.run(["go", "test", "-vet=off"] + MODFLAGS + ["-run", "^%s$/%s" % (test, "replay-" + base), "."],
                                cwd=pkgdir, env=goenv())
         finally:
             os.remove(tgt)
         rc = p.returncode
     else:
-        binary, log = build(unit["pkg"], unit.get("race", False), tmp, unit.get("build"))
+        extra = list(unit.get("build") or [])
+        if unit.get("prebuild"):
+            extra = PLAN.PREBUILD[unit["prebuild"]](tmp, goenv()) + extra
+        binary, log = build(unit["pkg"], unit.get("race", False), tmp, extra)
         if not binary:
             print(log)
             return 2
@@ -423,6 +441,7 @@ def main():
     sync_gosum()
     tmp = tempfile.mkdtemp(prefix="verif-%s-" % pid.lower(), dir=os.environ.get("VERIF_TMP") or None)
     try:
+        prepare_modfile(tmp)
         if a.replay:
             return do_replay(pid, a.replay, tmp)
         units = [u for u in meta["units"] if not a.only or re.search(a.only, u["run"])]
